@@ -7,6 +7,8 @@ import (
 	"crypto/elliptic"
 	"crypto/rand"
 	"crypto/x509"
+	"crypto/x509/pkix"
+	"encoding/asn1"
 	"encoding/pem"
 	"fmt"
 	"math/big"
@@ -162,6 +164,10 @@ func (C12) Generate(rng *mrand.Rand, tier string, runIdx uint64) simkit.Plan {
 			}
 			if simkit.Chance(rng, 8) {
 				s.List2 = append(s.List2, "email:ops@example.com")
+			}
+			if simkit.Chance(rng, 7) {
+				// the request asks for more than an identity: basic constraints CA:TRUE and key usage cert-sign
+				s.List2 = append(s.List2, "ext:ca")
 			}
 			p.Steps = append(p.Steps, s)
 		case 1:
@@ -380,6 +386,20 @@ func buildCSR(uris, extras []string) (*x509.CertificateRequest, error) {
 			tpl.IPAddresses = append(tpl.IPAddresses, net.ParseIP(e[3:]))
 		case strings.HasPrefix(e, "email:"):
 			tpl.EmailAddresses = append(tpl.EmailAddresses, e[6:])
+		case e == "ext:ca":
+			bc, err := asn1.Marshal(struct {
+				IsCA bool `asn1:"optional"`
+			}{true})
+			if err != nil {
+				return nil, err
+			}
+			ku, err := asn1.Marshal(asn1.BitString{Bytes: []byte{0x06}, BitLength: 7}) // keyCertSign, cRLSign
+			if err != nil {
+				return nil, err
+			}
+			tpl.ExtraExtensions = append(tpl.ExtraExtensions,
+				pkix.Extension{Id: asn1.ObjectIdentifier{2, 5, 29, 19}, Critical: true, Value: bc},
+				pkix.Extension{Id: asn1.ObjectIdentifier{2, 5, 29, 15}, Critical: true, Value: ku})
 		}
 	}
 	der, err := x509.CreateCertificateRequest(rand.Reader, tpl, key)
